@@ -75,15 +75,17 @@ def run(an: Analysis, rep):
     rep.run(r032, an, rep, ci)
     rep.run(r032_sole_writer, an, rep, ci)
     rep.run(r033, an, rep, ci)
-    rep.run(c08.r084, an, rep, rule="R03.4")
+    rep.run(r033_injective, an, rep, ci)
+    rep.run(c08.r084, an, rep, rule="R03.4", nan_sign_matters=True)
     rep.run(r035, an, rep)
     rep.run(r036, an, rep)
     rep.run(r037, an, rep)
     rep.run(r038, an, rep)
     from .common import SharedRules
     from . import c02, c04, c10
-    from .common import assert_guard_rule
+    from .common import assert_guard_rule, loop_var_after_loop_rule
     rep.run(assert_guard_rule, an, rep, "R03.G", ["to_code"])
+    rep.run(loop_var_after_loop_rule, an, rep, "R03.U", ["to_code"])
     from .common import truthiness_rule
     rep.run(truthiness_rule, an, rep, "R03.9", ["to_code"], [("Instruction", "line_number"), ("AdditionalLine", "line")])
     from . import c01, c11
@@ -234,6 +236,33 @@ def r032_sole_writer(an, rep, ci: ClassInfo):
                         f"(e.g. index len(table)) is silently overwritten, and the instruction that used it loads another value")
     rep.add("R03.2", f"{ci.qual}::{imap} is written by {sm.name} only", n == 0, loc(ci.module, ci.node),
             f"no other method of {ci.name} stores into {imap}" if n == 0 else f"{n} direct store(s) outside {sm.name}", nontrivial=False)
+
+
+def r033_injective(an, rep, ci: ClassInfo):
+    """The key under which the encoder's tables look entries up identifies the entry: `hash` does not (two different names can have one hash
+    value; the str hash is a 64-bit siphash, collisions can be constructed and are found in seconds for a fixed PYTHONHASHSEED)."""
+    keyattr = next((fl for fl in ci.fields if "Callable" in ast.dump(fl.annotation)), None)
+    if keyattr is None:
+        raise AnalysisError(f"{ci.qual}: key-function field not found")
+    sites = []
+    d = keyattr.default
+    if d is not None:
+        sites.append((ci.module, keyattr.node, d, f"default of {ci.name}.{keyattr.name}"))
+    for g in an.closure("to_code"):
+        for c in ast.walk(g.node):
+            if isinstance(c, ast.Call) and (norm_src(c.func).split("[")[0] == ci.name):
+                for k in c.keywords:
+                    if k.arg == keyattr.name:
+                        sites.append((g.module, c, k.value, f"{norm_src(c)[:40]} in {g.name}"))
+    if not sites:
+        raise AnalysisError(f"{ci.qual}: no key function given anywhere")
+    for mod, node, fnexpr, where in sites:
+        is_hash = isinstance(fnexpr, ast.Name) and fnexpr.id == "hash" and an.prog.resolve_global(mod, "hash", None) is None
+        is_id = isinstance(fnexpr, ast.Name) and fnexpr.id == "id"
+        rep.add("R03.3", f"{ci.qual}::{where} identifies the entry", not (is_hash or is_id), loc(mod, node),
+                f"key function `{norm_src(fnexpr)[:40]}`" if not (is_hash or is_id) else
+                f"the table is keyed by `{norm_src(fnexpr)}(entry)`: two different entries with the same hash value are one key, so the second is looked up as the first - two global names "
+                f"whose str hashes collide (`kmhbnkpohpoanbpa` / `beolekfbkiaiheik` under PYTHONHASHSEED=0) share one co_names slot and both loads resolve to the first name")
 
 
 def r033(an, rep, ci: ClassInfo):
